@@ -119,6 +119,28 @@ def host_send(ctx):
     if fn is None:
         R.bad(rule, f'{HOST}._send_command', 'anchor missing: ' + f'{HOST}._send_command')
         return
+    # Host.on_packet drops every packet but the Reset Command Complete while `ready` is False: waiting for the command in
+    # flight (flush() takes the command semaphore) must therefore happen before `ready` is cleared, never after
+    rs = p.find(f'{HOST}.reset')
+    op = p.find(f'{HOST}.on_packet')
+    if rs is None or op is None:
+        R.bad(rule, f'{HOST}.reset / on_packet', 'anchor missing')
+    else:
+        late = []
+
+        class Order(paths.Domain):
+            def event(self, node, v):
+                if isinstance(node, ast.Assign) and dotted(node.targets[0]) == 'self.ready' and norm(node.value) == 'False':
+                    return (True,)
+                if isinstance(node, ast.Assign) and dotted(node.targets[0]) == 'self.ready' and norm(node.value) == 'True':
+                    return (False,)
+                if isinstance(node, ast.Call) and dotted(node.func) == 'self.flush' and v:
+                    late.append(node.lineno)
+                return (v,)
+        paths.run(rs, Order(), False)
+        gated = any(isinstance(n, ast.If) and 'self.ready' in norm(n.test) for n in walk_local(op))
+        R.check(gated and not late and any(dotted(c.func) == 'self.flush' for c in calls_in(rs)), rule, f'{HOST}.reset | waits for the pending command while still ready', 'flush() (which takes the command semaphore) is awaited before `ready` is cleared',
+                f'reset() clears `ready` and then waits for the command semaphore (line {sorted(set(late))}): the response of a command in flight is dropped by on_packet (host not ready), its caller never resumes and reset() never gets the semaphore', p.loc(rs))
     # the local that receives the awaited response
     resp_var = None
     for n in walk_local(fn):
